@@ -166,6 +166,8 @@ def check_shipped(ctx, case):
     rmse = lib.uq_contents['RMSE'].thermochem
     ts = sorted(rmse.ND_Cp_data)
     Ts = [ts[0] + (ts[-1] - ts[0]) * f for f in case['tf']]
+    # the usual evaluation temperatures and the RMSE correlation's own reference temperature
+    Ts += [t for t in (298.15, 298.0, float(rmse.T_ref)) if ts[0] <= t <= ts[-1]][:1 + case.get('perm_seed', 0) % 3]
     keys = list(case['keys'])
     import random
     perm = list(keys)
@@ -202,14 +204,32 @@ def synthetic_case(draw):
 def check_synthetic(ctx, case):
     specs = case['specs']
     n = len(specs)
-    names = ['G%d' % i for i in range(n)]
+    names = ['G%d' % (9 - i) for i in range(n)]      # not in alphabetical order
     basis = [names[i] for i in case['basis_order']]      # the basis order differs from the library's own order
     A = np.array(case['A'], dtype=float)
     M = A.T @ A
     rmse = TG.build_group(case['rmse'])
     uq = dict(RMSE=types.SimpleNamespace(thermochem=rmse), descriptors=list(basis), mat=M.copy(), dof=10)
     specs2 = specs + ([TG_dummy()] if case['extra'] else [])
-    lib = TG.build_library(specs2, names=names + (['Outside'] if case['extra'] else []), uq=uq)
+    if sum(case['idx']) % 2 == 0:
+        lib = TG.build_library(specs2, names=names + (['Outside'] if case['extra'] else []), uq=uq)
+        ctx.event('synthetic:in-memory')
+    else:
+        # the same library written to disk and loaded: the basis order in the file is not the alphabetical one
+        from vlib import libgen as LG
+        from pgradd.GroupAdd.Library import GroupLibrary
+        nd = dict(H=('nd',), S=('nd',), Cp=('nd',), T=('explicit', 'K'))
+
+        def ab(sp):
+            return dict(T_ref=sp['T_ref'], H=sp['H'], S=sp['S'], cp=[[t, c] for t, c in zip(sp['Ts'], sp['Cps'])], range=sp['range'])
+        with LG.TempLib() as tl:
+            groups = {nm: ab(sp) for nm, sp in zip(names + (['Outside'] if case['extra'] else []), specs2)}
+            tl.write('library.yaml', LG.render_file(groups, lambda nm: nd) + LG.render_uq(ab(case['rmse']), basis, M.tolist()))
+            with warnings.catch_warnings():
+                warnings.simplefilter('ignore')
+                lib = GroupLibrary.Load(tl.path())
+        rmse = lib.uq_contents['RMSE'].thermochem
+        ctx.event('synthetic:loaded-from-file')
     keys = [names[i] for i in case['idx']]
     ts = case['rmse']['Ts']
     Ts = [150.0 + 1500.0 * f for f in case['tf']]
